@@ -53,7 +53,19 @@ FOCUS5 = {
     "C18": "'they never hold more than their configured depth plus the documented in-flight slot, never reorder, duplicate or corrupt queued messages', the protocols' own queues (pair, push, pub, bus, sub) and request / survey ids",
     "C19": "'a well-formed authority and port', IPv6 literals, userinfo, upper-case schemes and hosts, 'it never crashes or reads out of bounds on any input', 'nng_url_clone yields an equal, independent URL whatever its length'",
 }
+FOCUS6 = {
+    "C04": "'the state machines reject out-of-order use: receive before send on REQ, send before receive on REP and a second concurrent receive fail with NNG_ESTATE', REP contexts served concurrently over several connections, and raw-mode REQ/REP sockets",
+    "C05": "'messages from one publisher are never duplicated, altered or reordered', several publishers and several subscribers, subscriptions changed while messages arrive, raw XSUB/XPUB sockets and NNG_OPT_RECVBUF changes",
+    "C06": "'with no peer ready and the send buffer full it blocks, or fails with NNG_EAGAIN or NNG_ETIMEDOUT leaving the message with the caller', pipes that come and go while senders wait, 'never duplicated', raw XPUSH/XPULL",
+    "C09": "'offered to every currently connected peer at most once each and is never delivered back to the socket that sent it', peers that join and leave while messages are in flight, and receive-side queues",
+    "C12": "'is retransmitted whenever the connection it was sent on is lost', a request that is still queued (no connection yet / all connections busy) when connections appear and disappear, and 'the requester's receive eventually succeeds with a reply to that request'",
+    "C13": "'every reply or response returns to exactly the original requester or surveyor through any chain of devices', several requesters / surveyors behind one device at the same time, and devices for PAIR, BUS, PUB/SUB and PUSH/PULL ('forwards each message it accepts with an unchanged body')",
+    "C14": "'every pipe that reached ADD_POST receives REM_POST no later than the return of its socket's close', notification callbacks that call back into the library (close the pipe, send, set options), and listeners under accept errors",
+    "C10": "'every operation pending on the closed object then completes with NNG_ECLOSED or another terminal result, so nothing stays pending forever' for contexts, blocking calls (nng_recvmsg, nng_sendmsg, nng_dial) in other threads, and devices",
+}
 prop, tag = sys.argv[1], sys.argv[2]
+if len(sys.argv) > 3 and sys.argv[3] == "6":
+    FOCUS = FOCUS6
 if len(sys.argv) > 3 and sys.argv[3] == "5":
     FOCUS = FOCUS5
 if len(sys.argv) > 3 and sys.argv[3] == "4":
